@@ -66,6 +66,56 @@ Print Assumptions C16_packright_leftmost_at_zero.
 Example C16_hypotheses_satisfiable : layers_wf ex_g /\ geom_ok 5 ex_g.
 Proof. split; [exact ex_layers_wf | exact ex_geom_ok]. Qed.
 
+(* ---------- the WHOLE Layout (Proofs/C16Whole.v, C16Noop.v): for a connected input with helper nodes visible, the output node list is
+   one record per node of the final state g' (helper nodes of long edges included, which phase 5 and post-processing keep in the bands
+   with the x and width phase 4 gave them), and the bands of g' satisfy the contract: each node in exactly one band, no band empty,
+   consecutive members exactly NodeSpacing apart, extent = widths + gaps, VAlign: common midpoint, PackRight: common right end; with
+   NodeSpacing >= 0 and widths >= 0 the leftmost node is at x = 0. Any cycle breaker, layerer and router; both orderings. ---------- *)
+From Coq Require Import List.
+From Autog Require Import Populate Layout Pipeline PipelineNoop E2EBridge E2EBackbone C16Whole C16Noop.
+Import ListNotations.
+Local Open Scope Q_scope.
+
+Theorem C16_component_end_to_end : forall o g g' x,
+  component_input g -> aligned_p4 o -> modelled_p5 (o_p5 o) -> layout_component o g = Ok (g', x) ->
+  C16_contract o g' /\ (widths_nonneg g -> 0 <= o_node_spacing o -> C16_leftmost g').
+Proof. exact C16w_component. Qed.
+Print Assumptions C16_component_end_to_end.
+
+Theorem C16_layout_output : forall (A : Type) (eqA : A -> A -> bool), (forall x y, eqA x y = true <-> x = y) ->
+  forall o fixed sizes es ids ns oes xs,
+    aligned_p4 o -> modelled_p5 (o_p5 o) -> o_virtual o = true ->
+    layout A eqA o fixed sizes es = Ok (ids, (ns, oes, xs)) ->
+    forall g c, populate A eqA es = Ok (ids, g) ->
+      components (apply_sizes A eqA fixed sizes ids g) = [c] -> (2 <= length (g_N c))%nat ->
+      exists g' x,
+        layout_component o c = Ok (g', x) /\ C16_contract o g' /\ C16_output o g' ns /\
+        (0 <= o_node_spacing o -> widths_cfg_nonneg A eqA fixed sizes ids -> C16_leftmost g' /\ C16_output_leftmost ns).
+Proof. exact C16w_layout_output. Qed.
+Print Assumptions C16_layout_output.
+
+Theorem C16_layout_output_noop_ordering : forall (A : Type) (eqA : A -> A -> bool), (forall x y, eqA x y = true <-> x = y) ->
+  forall bk o fixed sizes es ids ns oes xs,
+    aligned_p4 o -> modelled_p5 (o_p5 o) -> o_virtual o = true ->
+    layout_n A eqA bk o fixed sizes es = Ok (ids, (ns, oes, xs)) ->
+    forall g c, populate A eqA es = Ok (ids, g) ->
+      components (apply_sizes A eqA fixed sizes ids g) = [c] -> (2 <= length (g_N c))%nat ->
+      exists g',
+        layout_component_n bk o c = Ok (g', None) /\ ns = map (out_node g') (g_N g') /\
+        C16_contract o g' /\ C16_output o g' ns /\
+        (0 <= o_node_spacing o -> widths_cfg_nonneg A eqA fixed sizes ids -> C16_leftmost g' /\ C16_output_leftmost ns).
+Proof. exact C16n_layout_output. Qed.
+Print Assumptions C16_layout_output_noop_ordering.
+
+(* with totality, so that the statement is about a run that exists (p2_ready: nothing for LongestPath; connected and within the pivot
+   budget for NetworkSimplex) *)
+Theorem C16_component_returns_and_satisfies_the_contract : forall o g,
+  component_input g -> aligned_p4 o -> modelled_p5 (o_p5 o) -> TotalPipeline.p2_ready o g ->
+  exists g' x, layout_component o g = Ok (g', x) /\ C16_contract o g' /\
+  (widths_nonneg g -> 0 <= o_node_spacing o -> C16_leftmost g').
+Proof. exact C16w_component_total. Qed.
+Print Assumptions C16_component_returns_and_satisfies_the_contract.
+
 (* ---------- regenerated from the source on every run (translator): the positioning phase does not read node identifiers, as its
    model, which contains none, assumes ---------- *)
 From Coq Require Import String.
